@@ -149,6 +149,45 @@ func i128(b []byte) *tl.Int128 { return &tl.Int128{Int: new(big.Int).SetBytes(b)
 // H_C06_handshake: a conformant server.  zeros selects which server-side values start with a zero byte
 // (bit 0 server_nonce, bit 1 g_a, bit 2 dh_prime-independent answer padding variant).
 func H_C06_handshake(padSel, nonceLZ, newNonceLZ, serverNonceLZ int) {
+	handshakeScript(padSel, nonceLZ, newNonceLZ, serverNonceLZ, 0)
+}
+
+// other16/other32: a value different from b (every such value: the difference is symbolic)
+func otherThan(b []byte) []byte {
+	o := verifrt.Bytes(len(b))
+	verifrt.Assume(!verifrt.SameBytes(o, b))
+	return o
+}
+
+const (
+	lieNone = iota
+	lieResPQNonce
+	lieNoFingerprint
+	lieDHNonce
+	lieDHServerNonce
+	lieDHFail
+	lieAnswerHash
+	lieAnswerGarbage
+	lieAnswerShort
+	lieInnerNonce
+	lieInnerServerNonce
+	lieInnerWrongType
+	lieGenNonce
+	lieGenServerNonce
+	lieGenHash
+	lieGenRetry
+	lieGenFail
+	nLies
+)
+
+// H_C07_lying_server: exactly one inconsistency is injected into an otherwise conformant exchange (every wrong
+// value of the field, symbolic).  The exchange must be abandoned with an error: no panic, nothing stored, the
+// client stays unencrypted and never writes an encrypted message.
+func H_C07_lying_server(lie int) {
+	handshakeScript(0, 0, 0, 0, lie)
+}
+
+func handshakeScript(padSel, nonceLZ, newNonceLZ, serverNonceLZ, lie int) {
 	verifrt.SetClock(1600000000, 0, 1000)
 	verifrt.SwitchBudget(0) // one client goroutine: scheduling is not the subject here
 	verifrt.AssumeCollisionFree() // the padding-trimming loop compares SHA-1 digests at up to 16 cut points
@@ -179,7 +218,25 @@ func H_C06_handshake(padSel, nonceLZ, newNonceLZ, serverNonceLZ int) {
 		verifrt.Assert(verifrt.SameBytes(fixed(r1.Nonce.Int, 16), h.nonce), "req_pq-carries-the-nonce")
 		fp := hSha1(hCat(refTLBytes(h.N), refTLBytes([]byte{1, 0, 1})))[12:20]
 		fpInt := int64(uint64(fp[0]) | uint64(fp[1])<<8 | uint64(fp[2])<<16 | uint64(fp[3])<<24 | uint64(fp[4])<<32 | uint64(fp[5])<<40 | uint64(fp[6])<<48 | uint64(fp[7])<<56)
-		h.serverSend(&objects.ResPQ{Nonce: i128(h.nonce), ServerNonce: i128(serverNonce), Pq: pq.Bytes(), Fingerprints: []int64{verifrt.I64(), fpInt}})
+		{
+			n1 := h.nonce
+			fps := []int64{verifrt.I64(), fpInt}
+			if lie == lieResPQNonce {
+				n1 = otherThan(h.nonce)
+			}
+			if lie == lieNoFingerprint {
+				verifrt.Assume(fps[0] != fpInt)
+				fps = []int64{fps[0]}
+				if verifrt.Bool() {
+					fps = nil
+				}
+			}
+			h.serverSend(&objects.ResPQ{Nonce: i128(n1), ServerNonce: i128(serverNonce), Pq: pq.Bytes(), Fingerprints: fps})
+			if lie == lieResPQNonce || lie == lieNoFingerprint {
+				verifrt.Quiesce()
+				return
+			}
+		}
 		// ---- step 2
 		r2, ok := h.serverRecv().(*objects.ReqDHParamsParams)
 		verifrt.Assert(ok, "second-request-is-req_DH_params")
@@ -210,7 +267,48 @@ func H_C06_handshake(padSel, nonceLZ, newNonceLZ, serverNonceLZ int) {
 			}
 		}
 		tk, tiv := hTempKeys(h.newNonce, serverNonce)
-		h.serverSend(&objects.ServerDHParamsOk{Nonce: i128(h.nonce), ServerNonce: i128(serverNonce), EncryptedAnswer: hIGEEncrypt(tk, tiv, hCat(withHash, pad))})
+		{
+			n2, sn2 := h.nonce, serverNonce
+			plain := hCat(withHash, pad)
+			switch lie {
+			case lieDHNonce:
+				n2 = otherThan(h.nonce)
+			case lieDHServerNonce:
+				sn2 = otherThan(serverNonce)
+			case lieAnswerHash:
+				// a prefix that matches no way of splitting content and padding
+				wrong := verifrt.Bytes(20)
+				for j := 0; j < 16 && 20+j <= len(plain); j++ {
+					verifrt.Assume(!verifrt.SameBytes(wrong, hSha1(plain[20:len(plain)-j])))
+				}
+				copy(plain[0:20], wrong)
+			case lieInnerNonce:
+				answer = mustMarshal(&objects.ServerDHInnerData{Nonce: i128(otherThan(h.nonce)), ServerNonce: i128(serverNonce), G: g, DhPrime: dhPrime, GA: fixed(ga, 256), ServerTime: 1})
+				plain = hCat(hSha1(answer), answer, pad)
+			case lieInnerServerNonce:
+				answer = mustMarshal(&objects.ServerDHInnerData{Nonce: i128(h.nonce), ServerNonce: i128(otherThan(serverNonce)), G: g, DhPrime: dhPrime, GA: fixed(ga, 256), ServerTime: 1})
+				plain = hCat(hSha1(answer), answer, pad)
+			case lieInnerWrongType:
+				answer = mustMarshal(&objects.Pong{MsgID: verifrt.I64(), PingID: verifrt.I64()})
+				plain = hCat(hSha1(answer), answer, make([]byte, (16-(20+len(answer))%16)%16))
+			}
+			enc := hIGEEncrypt(tk, tiv, plain)
+			if lie == lieAnswerGarbage {
+				enc = verifrt.Bytes(16 * (1 + verifrt.Len(2)))
+			}
+			if lie == lieAnswerShort {
+				enc = verifrt.Bytes(verifrt.Len(40))
+			}
+			if lie == lieDHFail {
+				h.serverSend(&objects.ServerDHParamsFail{Nonce: i128(h.nonce), ServerNonce: i128(serverNonce), NewNonceHash: i128(verifrt.Bytes(16))})
+			} else {
+				h.serverSend(&objects.ServerDHParamsOk{Nonce: i128(n2), ServerNonce: i128(sn2), EncryptedAnswer: enc})
+			}
+			if lie >= lieDHNonce && lie <= lieInnerWrongType {
+				verifrt.Quiesce()
+				return
+			}
+		}
 		// ---- step 3
 		r3, ok := h.serverRecv().(*objects.SetClientDHParamsParams)
 		verifrt.Assert(ok, "third-request-is-set_client_DH_params")
@@ -241,11 +339,43 @@ func H_C06_handshake(padSel, nonceLZ, newNonceLZ, serverNonceLZ int) {
 		key := fixed(kSrv, 256)
 		h.key = key
 		hash1 := hSha1(hCat(h.newNonce, []byte{1}, hSha1(key)[0:8]))[4:20]
-		h.serverSend(&objects.DHGenOk{Nonce: i128(h.nonce), ServerNonce: i128(serverNonce), NewNonceHash1: i128(hash1)})
+		switch lie {
+		case lieGenNonce:
+			h.serverSend(&objects.DHGenOk{Nonce: i128(otherThan(h.nonce)), ServerNonce: i128(serverNonce), NewNonceHash1: i128(hash1)})
+		case lieGenServerNonce:
+			h.serverSend(&objects.DHGenOk{Nonce: i128(h.nonce), ServerNonce: i128(otherThan(serverNonce)), NewNonceHash1: i128(hash1)})
+		case lieGenHash:
+			h.serverSend(&objects.DHGenOk{Nonce: i128(h.nonce), ServerNonce: i128(serverNonce), NewNonceHash1: i128(otherThan(hash1))})
+		case lieGenRetry:
+			h.serverSend(&objects.DHGenRetry{Nonce: i128(h.nonce), ServerNonce: i128(serverNonce), NewNonceHash2: i128(verifrt.Bytes(16))})
+		case lieGenFail:
+			h.serverSend(&objects.DHGenFail{Nonce: i128(h.nonce), ServerNonce: i128(serverNonce), NewNonceHash3: i128(verifrt.Bytes(16))})
+		default:
+			h.serverSend(&objects.DHGenOk{Nonce: i128(h.nonce), ServerNonce: i128(serverNonce), NewNonceHash1: i128(hash1)})
+		}
 		verifrt.Quiesce()
 	})
 	if crashed {
 		verifrt.Note("crash: " + verifrt.PanicMsg())
+	}
+	if lie != lieNone {
+		verifrt.Assert(!crashed, "inconsistent-reply-does-not-panic")
+		if crashed {
+			return
+		}
+		verifrt.Assert(hsDone, "key-exchange-returns")
+		if hsDone {
+			if hsErr != nil {
+				verifrt.Note("abandoned with: " + verifrt.ErrText(hsErr))
+			}
+			verifrt.Assert(hsErr != nil, "inconsistent-reply-is-an-error")
+		}
+		verifrt.Assert(len(h.store.stored) == 0, "nothing-stored")
+		verifrt.Assert(!m.encrypted, "client-stays-unencrypted")
+		for _, s := range h.t.log {
+			verifrt.Assert(!s.enc, "no-encrypted-message-written")
+		}
+		return
 	}
 	verifrt.Assert(!crashed, "process-survives")
 	if crashed {
